@@ -163,6 +163,15 @@ LineBodies == {
   SeqE("of", <<Opt(SeqE("of", <<NLt, NLt, A>>)), NLt, Bt>>)
 }
 
+\* separators and repeated elements of MORE THAN ONE terminal (C06): an item that fails after its first terminal leaves
+\* the furthest failure behind a list that ended before it
+SepComposite ==
+  LET seps == {SeqE("of", <<Bt, Bt>>), SeqE("of", <<Bt, X>>), SeqE("of", <<Bt, Opt(X), Bt>>)}
+      vals == {A, SeqE("of", <<A, A>>)}
+      lists == {SeqE(m, <<v, sp>>) : m \in {"sepby", "sepby1"}, v \in vals, sp \in seps} \cup
+               {SeqE(m, <<SeqE("of", <<A, Bt>>)>>) : m \in {"many", "many1"}}
+  IN lists \cup {SeqE("of", <<li, t>>) : li \in lists, t \in {A, X}}
+
 \* one memoised result used both right-trimmed and untrimmed at the same position (C07 / C10):
 \* nonterminal 2 = M -> a | a a ; P -> RTrim(M) b | M " " b   (both orders, each trim mode)
 SPt == Tm(32)
